@@ -20,7 +20,9 @@ for s in "${seeds[@]}"; do
     if ! (cd $r && git apply --3way --exclude=checkers/rulesdata/rulesdata.go $OLDPWD/$d/patch.diff >/dev/null 2>&1); then
       echo "$s: PATCH-DOES-NOT-APPLY to current HEAD"; rm -rf $r; continue
     fi
+    if [ "$prop" != "C17" ]; then   # a C17 seed is about data that no longer matches its source: leave the data as it is
     (cd $r/checkers && GOMODCACHE=/root/go/pkg/mod go run ./rules/precompile.go -rules ./rules/rules.go -o ./rulesdata/rulesdata.go >/dev/null 2>&1) || { echo "$s: REGENERATION-FAILED"; rm -rf $r; continue; }
+    fi
   elif [ -f $d/rebased.diff ]; then
     (cd $r && git apply $OLDPWD/$d/rebased.diff >/dev/null 2>&1) || { echo "$s: REBASED-PATCH-DOES-NOT-APPLY"; rm -rf $r; continue; }
   elif ! (cd $r && git apply --3way $OLDPWD/$d/patch.diff >/dev/null 2>&1 || git apply $OLDPWD/$d/patch.diff >/dev/null 2>&1); then
